@@ -1,7 +1,9 @@
 import SaModel.Spec.Decode
 /-
-Structural validity of an array for a field (C03), spelled out independently of how arrays are built:
-data type equal to the field's (child names, nullability, metadata, parameters), offsets start at 0, never
+C03's specification: `WF f a = WFS f a ∧ typeOf a = f.dataType` (end of this file).
+`wf` / `WFS`: structural validity of an array for a field, spelled out independently of how arrays are built:
+data type compatible with the field's (child names, nullability, metadata, parameters — but NOT the union mode and NOT the
+nullability / metadata of a Map's entries field: exact type equality is `typeOf a = f.dataType`), offsets start at 0, never
 decrease and end at the child length, bitmaps cover the length and are present iff the field is nullable,
 fixed-size children hold n entries per row, type ids and dense offsets in range, dictionary keys in range,
 string data valid UTF-8, no null in a non-nullable field.
@@ -117,7 +119,75 @@ def wfUFields : UFields → ArrUFields → Int → Bool
   | _, _, _ => false
 end
 
-/-- no null may be visible in a non-nullable field: implied by `validityOk` (no bitmap ⇒ no null) -/
-def WF (f : Field) (a : Arr) : Bool := wf f.dataType f.nullable a
+/-- STRUCTURAL validity of `a` for the field `f` (the former `WF`): layout (bitmaps, offsets, child lengths, ids and keys
+in range, UTF-8, value ranges) and the type parameters the recursion meets on its way.  It does NOT compare the union
+mode, nor the nullability / metadata of a Map's entries field (wild cards in the `.union` and `.map` arms of `wf`): type
+equality is the business of `typeOf` below.  No null may be visible in a non-nullable field: implied by `validityOk`
+(no bitmap ⇒ no null). -/
+def WFS (f : Field) (a : Arr) : Bool := wf f.dataType f.nullable a
+
+/-! ### the data type of an array
+
+`typeOf` transliterates marrow 0.2.3 `View::data_type` / `Array::data_type` (marrow/src/view.rs:107, array.rs:119) arm by
+arm; it is written over the physical array alone and knows nothing of the builders.  `field_from_meta(dt, meta)` is
+`fieldOfMeta`; a union is dense iff it has an offsets buffer; the entries field of a map is
+`Field { name: meta.entries_name, data_type: Struct[keys, values], ..Field::default() }`, i.e. NOT nullable and without
+metadata (marrow's `MapMeta` has no room for either). -/
+
+/-- `field_from_meta` -/
+def fieldOfMeta (fm : FieldMeta) (dt : DataType) : Field := .mk fm.name dt fm.nullable fm.metadata
+
+def primDT : PrimTy → DataType
+  | .int8 => .int8 | .int16 => .int16 | .int32 => .int32 | .int64 => .int64
+  | .uint8 => .uint8 | .uint16 => .uint16 | .uint32 => .uint32 | .uint64 => .uint64
+  | .float16 => .float16 | .float32 => .float32 | .float64 => .float64
+  | .date32 => .date32 | .date64 => .date64
+
+def timeDT : TimeTy → TimeUnit → DataType
+  | .time32, u => .time32 u
+  | .time64, u => .time64 u
+  | .duration, u => .duration u
+
+def bytesTyDT : BytesTy → DataType
+  | .utf8 => .utf8 | .largeUtf8 => .largeUtf8 | .binary => .binary | .largeBinary => .largeBinary
+
+def viewTyDT : ViewTy → DataType
+  | .utf8View => .utf8View | .binaryView => .binaryView
+
+mutual
+/-- `Array::data_type` -/
+def typeOf : Arr → DataType
+  | .null _ => .null
+  | .boolean _ _ _ => .boolean
+  | .prim ty _ _ => primDT ty
+  | .time ty u _ _ => timeDT ty u
+  | .timestamp u tz _ _ => .timestamp u tz
+  | .decimal128 p s _ _ => .decimal128 p s
+  | .bytes ty _ _ _ => bytesTyDT ty
+  | .bytesView ty _ _ _ => viewTyDT ty
+  | .fixedSizeBinary n _ _ => .fixedSizeBinary n
+  | .struct _ _ fs => .struct (typeOfFields fs)
+  | .list false _ _ fm el => .list (fieldOfMeta fm (typeOf el))
+  | .list true _ _ fm el => .largeList (fieldOfMeta fm (typeOf el))
+  | .fixedSizeList _ _ n fm el => .fixedSizeList (fieldOfMeta fm (typeOf el)) n
+  | .map _ _ mm ks vs =>
+    .map (.mk mm.entriesName
+      (.struct (.cons (fieldOfMeta mm.keys (typeOf ks)) (.cons (fieldOfMeta mm.values (typeOf vs)) .nil))) false []) mm.sorted
+  | .dictionary ks vs => .dictionary (typeOf ks) (typeOf vs)
+  | .union _ (some _) fs => .union (typeOfUFields fs) .dense
+  | .union _ none fs => .union (typeOfUFields fs) .sparse
+def typeOfFields : ArrFields → Fields
+  | .nil => .nil
+  | .cons fm a rest => .cons (fieldOfMeta fm (typeOf a)) (typeOfFields rest)
+def typeOfUFields : ArrUFields → UFields
+  | .nil => .nil
+  | .cons tid fm a rest => .cons tid (fieldOfMeta fm (typeOf a)) (typeOfUFields rest)
+end
+
+/-- **C03's specification predicate**: `a` is a structurally valid array (`WFS`) WHOSE DATA TYPE — as marrow reports it —
+EQUALS the data type of the field: child names, nullability, metadata and every parameter (time unit, time zone,
+precision / scale, sizes, union mode and type ids, the map's sorted flag and entries field, dictionary key / value
+types) included. -/
+def WF (f : Field) (a : Arr) : Bool := WFS f a && decide (typeOf a = f.dataType)
 
 end SaModel.Spec
